@@ -215,6 +215,32 @@ MUTANTS = [
      "        if not xtuml.navigate_subtype(inst, rel_id):", "        if not xtuml.navigate_subtype(inst, rel_id) and inst is m.select_any(super_kind):"),
     ('C11', 'many-upper-bound-ignored', 'xtuml/consistency_check.py',
      "          (len(q_set) > 1 and not link.many)):", "          (len(q_set) > 2 and not link.many)):"),
+    ('C07', 'swap-and-or-precedence', 'bridgepoint/oal.py',
+     "        ('left', 'OR'),\n        ('left', 'AND'),", "        ('left', 'AND'),\n        ('left', 'OR'),"),
+    ('C07', 'additive-right-assoc', 'bridgepoint/oal.py',
+     "        ('left', 'PLUS', 'MINUS', 'PIPE'),", "        ('right', 'PLUS', 'MINUS', 'PIPE'),"),
+    ('C07', 'mod-same-level-as-times', 'bridgepoint/oal.py',
+     "        ('left', 'TIMES', 'DIV', 'AMP', 'CARET'),\n        ('left', 'MOD'),",
+     "        ('left', 'TIMES', 'DIV', 'AMP', 'CARET', 'MOD'),"),
+    ('C07', 'unary-binds-weaker-than-mod', 'bridgepoint/oal.py',
+     "        ('left', 'MOD'),\n        ('right', 'UNARY'),", "        ('right', 'UNARY'),\n        ('left', 'MOD'),"),
+    ('C07', 'while-loop-word-dropped', 'bridgepoint/oal.py',
+     "'''statement : WHILE expression LOOP block END_WHILE'''", "'''statement : WHILE expression LOOP LOOP block END_WHILE'''"),
+    ('C07', 'keywords-case-sensitive', 'bridgepoint/oal.py',
+     "        value = t.value.upper()\n        if value in self.keywords:", "        value = t.value\n        if value in self.keywords:"),
+    ('C07', 'comparison-left-assoc-with-plus', 'bridgepoint/oal.py',
+     "        ('nonassoc', 'LESSTHAN', 'LE', 'DOUBLEEQUAL', 'GT', 'GE', 'NOTEQUAL'),\n        ('left', 'PLUS', 'MINUS', 'PIPE'),",
+     "        ('left', 'PLUS', 'MINUS', 'PIPE'),\n        ('nonassoc', 'LESSTHAN', 'LE', 'DOUBLEEQUAL', 'GT', 'GE', 'NOTEQUAL'),"),
+    ('C07', 'binary-operands-swapped', 'bridgepoint/oal.py',
+     "                   | expression CARET expression\n        '''\n        p[0] = BinaryOperationNode(left=p[1],\n                                   operator=p[2],\n                                   right=p[3])",
+     "                   | expression CARET expression\n        '''\n        p[0] = BinaryOperationNode(left=p[3] if p[2] == '^' else p[1],\n                                   operator=p[2],\n                                   right=p[1] if p[2] == '^' else p[3])"),
+    ('C07', 'elif-drops-following', 'bridgepoint/oal.py',
+     "        p[0] = p[3]\n        p[0].children.insert(0, p[2])", "        p[0] = p[3]\n        p[0].children[:] = [p[2]]"),
+    ('C07', 'unrelate-using-phrase-lost', 'bridgepoint/oal.py',
+     "        p[0] = UnrelateUsingNode(from_variable_name=p[2],\n                                 to_variable_name=p[4],\n                                 rel_id=p[6],\n                                 phrase=p[8],",
+     "        p[0] = UnrelateUsingNode(from_variable_name=p[2],\n                                 to_variable_name=p[4],\n                                 rel_id=p[6],\n                                 phrase=None,"),
+    ('C07', 'sl-comment-eats-next-line', 'bridgepoint/oal.py',
+     "        r'\\/\\/.*\\n'", "        r'\\/\\/.*\\n.*\\n'"),
 ]
 
 
